@@ -60,18 +60,22 @@ func ParseJWT(data []byte) (*JWT, error) {
 	return &jwt, nil
 }
 
+// HeaderAttributes lists the registered header parameters of the header, and registered claims replicated there
+// (RFC 7519 section 5.3).
 func (j JWT) HeaderAttributes() []Attribute {
-	return jwtAttributes(j.Header)
+	return jwtAttributes(j.Header, jwtParamOrder)
 }
 
+// PayloadAttributes lists the registered claims of the payload. A payload member that merely has the name of a header
+// parameter ("typ":"Bearer", "kid", "alg") is a private claim and says nothing about the token's header.
 func (j JWT) PayloadAttributes() []Attribute {
-	return jwtAttributes(j.Payload)
+	return jwtAttributes(j.Payload, jwtClaimOrder)
 }
 
-// jwtAttributes lists the registered parameters present in m in a fixed order (map iteration order is random).
-func jwtAttributes(m map[string]any) []Attribute {
+// jwtAttributes lists the parameters named in order that are present in m, in that order (map iteration order is random).
+func jwtAttributes(m map[string]any, order []string) []Attribute {
 	var attrs []Attribute
-	for _, k := range jwtParamOrder {
+	for _, k := range order {
 		v, present := m[k]
 		if !present {
 			continue
@@ -112,11 +116,11 @@ var jwtParams = map[string]jwtParam{
 	"sub": {"Subject", str},
 }
 
-// jwtParamOrder is the order in which registered parameters are displayed.
-var jwtParamOrder = []string{
-	"alg", "typ", "jku", "jwk", "kid", "x5u", "x5c", "x5t", "x5t#S256",
-	"aud", "exp", "iat", "iss", "jti", "nbf", "sub",
-}
+// jwtHeaderOrder and jwtClaimOrder are the orders in which registered header parameters (RFC 7515 section 4.1) and
+// registered claims (RFC 7519 section 4.1) are displayed; jwtParamOrder is both.
+var jwtHeaderOrder = []string{"alg", "typ", "jku", "jwk", "kid", "x5u", "x5c", "x5t", "x5t#S256"}
+var jwtClaimOrder = []string{"aud", "exp", "iat", "iss", "jti", "nbf", "sub"}
+var jwtParamOrder = append(append([]string{}, jwtHeaderOrder...), jwtClaimOrder...)
 
 func sigAlg(o any) (string, bool) {
 	if s, ok := o.(string); ok {
